@@ -4,7 +4,7 @@ from tools import vlib, t3
 from tools import ks
 
 MODULE = "PropC05"
-THEOREMS = ["C05_code_conforms", "C05_no_deadlock", "C05_terminates", "C05_not_early", "C05_all_done_at_return", "C05_param_feeder_may_lag", "C05_no_leftovers", "C05_nonvacuous", "C05_with_slots_no_deadlock", "C05_with_slots_terminates", "C05_with_slots_all_done", "C05_with_slots_maximal", "C05_with_slots_nonvacuous", "C05_fanin_no_deadlock", "C05_fanin_terminates", "C05_fanin_maximal", "C05_fanin_small_buffer_refuted", "C05_fanin_nonvacuous", "C05_stream_only_progress", "C05_stream_reg_step_decreases", "C05_stream_only_nonvacuous", "C05_stream_and_regular_refuted"]
+THEOREMS = ["C05_code_conforms", "C05_no_deadlock", "C05_terminates", "C05_not_early", "C05_all_done_at_return", "C05_param_feeder_may_lag", "C05_no_leftovers", "C05_nonvacuous", "C05_with_slots_no_deadlock", "C05_with_slots_terminates", "C05_with_slots_all_done", "C05_with_slots_maximal", "C05_with_slots_nonvacuous", "C05_fanin_no_deadlock", "C05_fanin_terminates", "C05_fanin_maximal", "C05_fanin_small_buffer_refuted", "C05_fanin_nonvacuous", "C05_stream_only_progress", "C05_stream_reg_step_decreases", "C05_stream_only_nonvacuous", "C05_stream_and_regular_refuted", "C05_cone_conforms"]
 
 
 def shapes(rng, i):
